@@ -58,3 +58,14 @@ let () =
       else if bok <> "1" then Viol (Printf.sprintf "a session run inside the %s callback of another (%s side) did not see the result it sees alone" hook side)
       else Pass (hook <> "none")
     | _ -> Diff "malformed line")
+
+(* C19IO: other sessions' pool traffic run inside every Read / Write of session A's transport (deterministic
+   interleaving at the I/O points, after a prelude through the library's error paths): A must send / return what it
+   does alone *)
+let () =
+  register "C19IO" (fun i o -> match i, o with
+    | [op; side; n], [same; solo; _nested] ->
+      if solo = "panic" then Viol ("panic in " ^ op)
+      else if same <> "1" then Viol (Printf.sprintf "%s (side %s, %s bytes): with other sessions using the shared pools during its I/O the session did not send / return what it does alone" op side n)
+      else Pass true
+    | _ -> Diff "malformed line")
